@@ -23,7 +23,8 @@ def run_family(R, prop_files, deps, gen_modules, oracle=None, what="", max_quick
             p["family"] = gm
         progs.extend(ps)
     if R.tier == "quick" and max_quick and len(progs) > max_quick:
-        progs = rng.sample(progs, max_quick)
+        keep = [p for p in progs if p.get("keep")]            # hand-picked boundary programs are never sampled away
+        progs = keep + rng.sample([p for p in progs if not p.get("keep")], max(0, max_quick - len(keep)))
     outs, mism, broken = scancorr.run_cases(progs, R, R.pid.lower())
     R.broken.extend(broken)
     for p, o in zip(progs, outs):
